@@ -140,6 +140,32 @@ func runC03(c *Check) {
 	}
 	c.Floor("R3.1", "stores to Available", nAvail, 1)
 	c.Floor("R3.1", "stores to Remaining", nRem, 2)
+	// a result loaded from the datastore is trusted only after its size was compared with the configured amount
+	_, sizeGates := failGates(sa, func(cond ssa.Value, sl *Slice) bool {
+		return sl.HasFieldNamed("", "SampleAmount") && sl.HasFieldNamed("SamplingResult", "Remaining") && sl.HasFieldNamed("SamplingResult", "Available")
+	})
+	c.Ob("R3.5", "stored result sized against the configured amount", len(sizeGates) > 0, p.Pos(sa.Pos()),
+		"a rejecting branch compares len(Remaining)+len(Available) of the loaded result with params.SampleAmount (a stored result with fewer coordinates than configured cannot report success)")
+	// the persisted result carries this session's failures: Remaining is reassigned before the result is marshalled
+	for _, b := range sa.Blocks {
+		for idx, ins := range b.Instrs {
+			g, ok := ins.(*ssa.Call)
+			if !ok || calleeObj(&g.Call) == nil || calleeObj(&g.Call).Name() != "Marshal" || !p2pReach(sa, get.Block())[b] {
+				continue
+			}
+			updated := false
+			for _, b2 := range sa.Blocks {
+				for i2, in2 := range b2.Instrs {
+					if st := isFieldStore(in2, "Remaining"); st != nil {
+						if (b2 == b && i2 < idx) || (b2 != b && b2.Dominates(b) && p2pReach(sa, get.Block())[b2]) {
+							updated = true
+						}
+					}
+				}
+			}
+			c.Ob("R3.1", "Remaining updated before persisting", updated, p.Pos(g.Pos()), "on every path from the getter call to json.Marshal of the result, Remaining has been reassigned (to the failed set, checked above)")
+		}
+	}
 
 	// R3.2
 	var afterGet []*ssa.Return
